@@ -149,6 +149,11 @@ class LazyLogging(SimpleCodemod, NameAndAncestorResolutionMixin):
             case cst.Tuple():
                 for element in format_args.elements:
                     new_args.append(cst.Arg(value=element.value))
+            case cst.Name() if isinstance(
+                self.resolve_expression(format_args), cst.Tuple
+            ):
+                # `"%s %s" % pair` formats with the elements of the tuple
+                new_args.append(cst.Arg(value=format_args, star="*"))
             case _:
                 new_args.append(cst.Arg(value=format_args))
         return new_args
